@@ -52,5 +52,24 @@ target("breezy/bzr/smart/repository.py::SmartServerRepositoryRequest.recreate_se
        raises={"Exception": True}, canary=lambda c: c.result[0].is_none,
        note="block: the size check after the walk")
 
+# ---- the depth-limited variant hands the searcher's own state to the server: start keys minus the heads met while walking, the
+#      searcher's exclude keys UNFILTERED (a known ghost must stay a stop key: it may have been filled on the server since), its key count
+SState = ufunc("SState", SEARCH, Tup(KS, KS, KS))
+FoundHeads = ufunc("FoundHeads", KS)
+assumed("_find_possible_heads", pure=True, raises={"Exception": None})
+assumed("_run_search", pure=True, result=Tup(SEARCH, KS), ensures=lambda c: c.result[1] == FoundHeads(), raises={"Exception": None},
+        note="runs the breadth-first searcher over the cached parent map from the possible heads down to the tips")
+assumed("s.get_state", pure=True, returns=lambda c: SState(c.s), raises={"Exception": None})
+target("breezy/bzr/vf_search.py::limited_search_result_from_parent_map",
+       params=dict(parent_map=PM, missing_keys=KS, tip_keys=ANY, depth=INT), locals=dict(s=SEARCH, found_heads=KS),
+       result=Tup(KS, KS, INT),
+       requires=lambda c: truthy(c.parent_map),
+       ensures={"start_is_the_searchers_start_minus_heads_met_on_the_way": lambda c: In(X0(), c.result[0]) == And(
+                    In(X0(), SState(c.s)[0]), Not(In(X0(), FoundHeads()))),
+                "stop_keys_are_the_searchers_unfiltered": lambda c: In(X0(), c.result[1]) == In(X0(), SState(c.s)[1]),
+                "count_is_the_searchers": lambda c: c.result[2] == Card(SState(c.s)[2])},
+       raises={"Exception": True}, canary=lambda c: c.result[2] == 0,
+       equivalent_mutants={r"return \[\], \[\], 0|if not parent_map": "the empty-map case (empty recipe)"})
+
 undecided("that a breadth-first walk from `start` stopping at `stop` visits exactly the keys of the map (graph induction over the external searcher)")
-undecided("serialisation of the recipe (join/split on spaces and newlines; revision ids contain neither: assumed), limited_search_result_from_parent_map")
+undecided("serialisation of the recipe (join/split on spaces and newlines; revision ids contain neither: assumed); _find_possible_heads and _run_search (external searcher)")
